@@ -102,7 +102,8 @@ def subspaces(tier):
     def quad():
         # 4 bytes per address (TMS320C3x): the automatic address range is computed in address units from byte lengths
         for f in ('Intel', 'Intel16', 'Intel32'):
-            for o in ([], [['-r', '0x-0x']], [['-r', 'WIN']], [['-l', '4']], [['-l', '32']]):
+            for o in ([], [['-r', '0x-0x']], [['-r', 'WIN']], [['-l', '4']], [['-l', '32']], [['-l', '6']], [['-l', '2']], [['-l', '10']], [['-m', '1']],
+                      [['-l', '6'], ['-m', '1']], [['-l', '18'], ['-m', '1']]):
                 for st in (0, 0x40, 0x100, 0x3f0):
                     for nw in (1, 2, 3, 5, 11, 16, 17):
                         yield {'fmt': f, 'recs': [[0x76, st, nw]], 'entry': None, 'opts': o}
@@ -320,7 +321,7 @@ def evaluate(case):
                 a0 = r['start'] + i // g
                 if not (win[0] <= a0 <= win[1]):
                     continue
-                a = (a0 + off) * g + i % g
+                a = (a0 + off) * g + ((g - 1 - i % g) if (o_m == 1 and g > 1) else i % g)   # -m 1: the bytes of an address unit in reverse order
                 if a > MAXA[eff] or a < 0:
                     over = True
                 want[a] = x
@@ -349,7 +350,7 @@ def evaluate(case):
         bad = [a for a in sorted(set(mem) | set(want)) if mem.get(a) != want.get(a)][:3]
         return core.R(False, 'contents', 'contents/' + sg, 'decoded contents differ at %s (decoded, model): %s on %s' % ([hex(a) for a in bad], [(mem.get(a), want.get(a)) for a in bad], d))
     # ---- format-specific field checks
-    if 'maxpayload' in info and fmt != 'PIC' and info['maxpayload'] > o_l:
+    if 'maxpayload' in info and fmt != 'PIC' and info['maxpayload'] > max(o_l, max(r['gran'] for r in recs)):   # a line carries at least one address unit
         return core.R(False, 'linelen', 'linelen/' + sg, 'a line carries %d data bytes, -l allows %d on %s' % (info['maxpayload'], o_l, d))
     exp_entry = o_e if o_e is not None else case['entry']
     if eff == 'Moto':
